@@ -29,7 +29,8 @@ RULE = (
     "pred likewise for predicted losers); calling a contest for its predicted winner never widens either side; both "
     "threshold and correlation modes. Non-trivial: (a) a summary after a history whose last computed aggregate is not "
     "the top level; (b) >=1 contest whose bootstrap distribution straddles 0. Distinct = history shape / (mode, calls, "
-    "contest pattern)."
+    "contest pattern). (c) table: one canonical run, one summary call for 2-3 levels at once: the returned one-row table "
+    "carries for every level exactly the model's (pred, lower, upper) of that level, ordered."
 )
 ASSUMPTIONS = [
     "soft-threshold mode is only checked for ordering (the statement claims no more)",
@@ -40,8 +41,8 @@ FLOOR = {"quick": 15, "thorough": 80}
 
 def parts(tier):
     if tier == "quick":
-        return [{"name": "machine", "n": 64}, {"name": "model", "n": 4000}]
-    return [{"name": "machine", "n": 1000}, {"name": "model", "n": 60000}]
+        return [{"name": "machine", "n": 64}, {"name": "model", "n": 4000}, {"name": "table", "n": 96}]
+    return [{"name": "machine", "n": 1000}, {"name": "model", "n": 60000}, {"name": "table", "n": 1600}]
 
 
 # ---- (a) ------------------------------------------------------------------------------------------------------------
@@ -305,9 +306,56 @@ def check_model(case, ctx):
         )
 
 
+# ---- (c) the table the client returns for several levels -----------------------------------------------------------------
+TABLE = gen.election_case(
+    estimators=("bootstrap",), Bs=(10, 20, 40), max_alphas=3, alphas_pool=(0.5, 0.7, 0.8, 0.9, 0.99), aggregates_mode="top", slack=(0, 8), max_other=10, lambdas=(0, 0.1), max_states=3, min_nonrep=2
+)
+
+
+def check_table(case, ctx):
+    """One canonical run, one summary call for ALL requested levels: the returned one-row table must carry, for each
+    level, exactly what the model computes for that level, be ordered and nested."""
+    ctx.evaluated()
+    c = copy.deepcopy(case)
+    top = level_keys(c["office"], "postal_code")
+    c["req"]["aggregates"] = list(top) + ["unit"]
+    r = run_case(c)
+    if not r.ok:
+        return
+    names = ["_".join(map(str, k)) for k in r.tables["state_data"][top].itertuples(index=False, name=None)]
+    alphas = list(c["req"]["alphas"])
+    for kind, base in (("ints", 3), ("none", 0)):
+        w = SummaryHistories._weights(kind, names)
+        key, df = summary_key(r.client, w, base, alphas)
+        if df is None:
+            ctx.violation("summary_failed", f"{key}", case, sig="summary_failed")
+            return
+        cols = ["estimand", "agg_pred"] + [f"{s}_{a}" for a in alphas for s in ("lower", "upper")]
+        if sorted(df.columns) != sorted(cols) or len(df) != 1:
+            ctx.violation("summary_table_columns", f"{list(df.columns)} expected {cols}", case, sig="table_columns")
+            return
+        pred = float(df["agg_pred"].iloc[0])
+        per = {}
+        for a in alphas:
+            est = [float(x) for x in r.client.model.get_national_summary_estimates(copy.deepcopy(w), base, a)["margin"]]
+            lo, up = float(df[f"lower_{a}"].iloc[0]), float(df[f"upper_{a}"].iloc[0])
+            per[a] = (lo, up)
+            if [pred, lo, up] != est or not (lo <= pred <= up):
+                ctx.violation("summary_table_misreports_level", f"alpha={a}: table (pred, lower, upper) = ({pred}, {lo}, {up}); the model's estimate for this level is {est}", case, sig="table_level")
+                return
+        srt = sorted(alphas)
+        for a, b in zip(srt, srt[1:]):
+            if not (per[b][0] <= per[a][0] and per[a][1] <= per[b][1]):
+                ctx.label("summary_levels_not_nested")  # reported only: the statement does not claim nesting for the summary
+        if len(alphas) >= 2 and any(lo < pred or up > pred for lo, up in per.values()):
+            ctx.nontrivial(["table", len(alphas), kind, len(names), c["office"]], {"part": "table", "alphas": alphas, "weights": kind, "summary": df.to_dict("records")[0]})
+
+
 def run_part(name, seed, n, tier, ctx, si, sc):
     if name == "machine":
         run_machine(seed, n, tier, ctx)
+    elif name == "table":
+        hyp_run(TABLE, lambda case: check_table(case, ctx), seed, n, tier)
     else:
         hyp_run(_model_strategy(), lambda case: check_model(case, ctx), seed, n, tier)
 
@@ -344,6 +392,8 @@ def replay(case, ctx):
                 if key != refkey:
                     ctx.violation("summary_depends_on_history", f"replayed history: {key} vs canonical {refkey}", case, sig="history|" + (key[1] if key[0] == "exc" else "value"))
                     return
+    elif "units" in case:
+        check_table(case, ctx)
     else:
         check_model(case, ctx)
 
